@@ -41,6 +41,9 @@ def judge(rec, opts):
             out.append((f"{pol}-succeeds-where-default-fails:{what}", {"default": d, pol: s}))
         if not s["ok"] and "UndefinedError" in s.get("mro", []) and not rec["expect"]["touched"]:
             out.append((f"{pol}-raises-without-missing-variable:{what}", {"default": d, pol: s}))
+        # ... and only where the reference's reading of the policy uses the undefined (binding it to a name is no use)
+        elif not s["ok"] and "UndefinedError" in s.get("mro", []) and rec["expect"].get(pol) == "":
+            out.append((f"{pol}-raises-without-use:{what}", {"default": d, pol: s}))
     return out
 
 
